@@ -6,7 +6,7 @@ import ast
 from sa.engine.facts import Bad, F, atom
 from sa.engine.pattern import u, dump, find_all
 from sa.engine.source import norm, own_walk, stmt_of, AnalysisError
-from .common import lexically_inside, enclosing
+from .common import lexically_inside, enclosing, resolve_value
 
 EXPLANATION = ("Async lru_cache: every removal from the entry mapping removes a completed result (lock slot None), is followed by leaving the "
                "iteration and is paired with one decrement of the size counter; every store into the mapping is a fresh placeholder for an "
@@ -396,9 +396,17 @@ def check(ctx):
     # the stored expiry is now + ttl
     for st in stores:
         if in_lock(st):
-            exp = ctx.sites(call, "$E = current_time() + self._ttl if self._ttl is not None else None")
-            okx = bool(exp) and isinstance(st.value, ast.Tuple) and len(st.value.elts) == 3 and getattr(st.value.elts[2], "id", "") == getattr(exp[0][1]["E"], "id", None) \
-                and exp[0][0].lineno < st.lineno and in_lock(exp[0][0])
+            # the expiry stored with the result: `current_time() + self._ttl if self._ttl is not None else None`, in either spelling
+            exp = []
+            ev_ = st.value.elts[2] if isinstance(st.value, ast.Tuple) and len(st.value.elts) == 3 else None
+            if isinstance(ev_, ast.Name):
+                val_ = resolve_value(fn, ev_, within=lockw)
+                want_ = ast.parse("current_time() + self._ttl if self._ttl is not None else None", mode="eval").body
+                alt_ = ast.parse("None if self._ttl is None else current_time() + self._ttl", mode="eval").body
+                if isinstance(val_, ast.IfExp) and ast.dump(val_) in (ast.dump(want_), ast.dump(alt_)):
+                    defs_ = [n for n in own_walk(lockw) if isinstance(n, ast.Assign) and len(n.targets) == 1 and getattr(n.targets[0], "id", None) == ev_.id]
+                    exp = [(defs_[0], {"E": ev_})]
+            okx = bool(exp) and exp[0][0].lineno < st.lineno and in_lock(exp[0][0])
             ctx.ob("R20-e", call, "a result's expiry is `current_time() + ttl` taken after the computation", okx, node=st,
                    detail="" if okx else "the stored expiry is not computed as current_time() + self._ttl after the wrapped call returned",
                    by=("expires_at = current_time() + self._ttl",))
